@@ -681,10 +681,10 @@ fn main() {
         ));
     }
     report.floor("try.out.Deposited", total as u64);
-    report.floor("try.out.Refunded", (total as u64) / 2);
-    report.floor("try.out.EBadgeNotPresent", (total as u64) / 8);
-    report.floor("try.out.ENotAllBuckets", (total as u64) / 8);
-    report.floor("try.out.EDepositIsDisallowed", (total as u64) / 8);
+    report.floor("try.out.Refunded", (total as u64) / 4);
+    report.floor("try.out.EBadgeNotPresent", (total as u64) / 30);
+    report.floor("try.out.ENotAllBuckets", (total as u64) / 12);
+    report.floor("try.out.EDepositIsDisallowed", (total as u64) / 12);
     cw.write(&args.out, args.shards).unwrap();
     report.write(&args.out).unwrap();
 }
